@@ -160,6 +160,61 @@ func VisitI(cur realm, v Visitor) {
 	v.Visit()
 }
 
+// Cb and CbI run a caller-supplied crossing callback with the vault's own cur
+// in every call form, relying on the VM to refuse a callee of another realm.
+type Runner interface{ Run(cur realm) }
+
+type holder struct{ f func(realm) }
+
+func (h holder) run(cur realm) { h.f(cur) }
+
+var stored func(realm)
+
+func Cb(cur realm, form int, cb func(realm)) {
+	Got++
+	switch form {
+	case 0:
+		cb(cur)
+	case 1:
+		defer cb(cur)
+	case 2:
+		func() { cb(cur) }()
+	case 3:
+		defer func() { cb(cur) }()
+	case 4:
+		stored = cb
+		f := stored
+		stored = nil
+		f(cur)
+	case 5:
+		m := holder{cb}.run
+		m(cur)
+	case 6:
+		stored = cb
+		defer func() { stored = nil }()
+		defer stored(cur)
+	default:
+		h := holder{cb}
+		defer h.f(cur)
+	}
+}
+
+func CbI(cur realm, form int, v Runner) {
+	Got++
+	switch form % 4 {
+	case 0:
+		v.Run(cur)
+	case 1:
+		defer v.Run(cur)
+	case 2:
+		m := v.Run
+		m(cur)
+	default:
+		m := v.Run
+		defer m(cur)
+	}
+}
+
 func Grow(cur realm, n int) int {
 	for i := 0; i < n; i++ {
 		Log = append(Log, "0123456789abcdef0123456789abcdef")
